@@ -25,7 +25,8 @@ ASSUMPTIONS = [
     "parameter types are disjoint builtin classes plus object: the model's resolution is unambiguous",
 ]
 REPORT_COUNTERS = ["histories", "operations", "probes", "refusals", "refusals_justified", "ancestor_modified_after_use",
-                   "propagated_through_linkback", "grandchild_histories", "linkback_histories", "addmixin_on_used"]
+                   "propagated_through_linkback", "grandchild_histories", "linkback_histories", "addmixin_on_used",
+                   "override_with_other_parameter_names"]
 
 TYPES = ["int", "str", "float", "bytes", "list", "object"]
 VALS = {"int": 1, "str": "s", "float": 2.5, "bytes": b"b", "list": [], "object": None}
@@ -34,11 +35,22 @@ VALS = {"int": 1, "str": "s", "float": 2.5, "bytes": b"b", "list": [], "object":
 def plan(tier):
     n = 2000 if tier == "quick" else 40000
     return {"cases": n, "params": {}, "timeout_s": 1200 if tier == "quick" else 7200,
-            "min": {"probes": 30_000, "ancestor_modified_after_use": 100, "refusals_justified": 300,
+            "min": {"probes": 30_000, "ancestor_modified_after_use": 100, "refusals_justified": 200,
                     "propagated_through_linkback": 100}}
 
 
+def _gen_names_case(rng):
+    """a child that overrides a parent's method of identical signature with the parameter names swapped (or renamed);
+    both functions are then called positionally and by keyword: each must bind the arguments by *its own* names"""
+    t0, t1 = rng.choice(["int", "str", "float"]), rng.choice(["int", "str", "float"])
+    return {"names_case": True, "types": [t0, t1], "how": rng.choice(["copy", "copy_linkback", "variant", "mixin"]),
+            "rename": rng.choice(["swap", "swap", "new"]), "history": rng.choice(["none", "none", "rereg_unreg"]),
+            "use_parent_first": rng.random() < 0.5}
+
+
 def gen_case(rng, params, idx):
+    if idx % 12 == 11:
+        return _gen_names_case(rng)
     ops = [["new"]]
     n_nodes = 1
     parents = {0: []}
@@ -113,7 +125,63 @@ def _paths(d, a):
     return out
 
 
+def _check_names(spec, res):
+    from ovld import Ovld
+    from ..methods import load_source, forget
+    py = {"int": (int, 3, 4), "str": (str, "s", "t"), "float": (float, 1.5, 2.5)}
+    (c0, a0, _), (c1, _, b1) = py[spec["types"][0]], py[spec["types"][1]]
+    ns, files = {}, []
+
+    def mk(p0, p1, tag):
+        src = f"def f({p0}, {p1}):\n    return ('{tag}', {{'{p0}': {p0}, '{p1}': {p1}}})\n"
+        nsx, f_ = load_source(src, ns, tag="c16n", shared=True)
+        files.append(f_)
+        fn = nsx["f"]
+        fn.__annotations__ = {p0: c0, p1: c1}
+        return fn
+    P = Ovld()
+    pf = mk("a", "b", "P")
+    P.register(pf)
+    if spec["use_parent_first"]:
+        P(a0, b1)
+    n0, n1 = ("b", "a") if spec["rename"] == "swap" else ("u", "v")
+    cf = mk(n0, n1, "C")
+    how = spec["how"]
+    if how == "variant":
+        C = P.variant(cf)
+    elif how == "mixin":
+        C = Ovld(mixins=[P])
+        C.register(cf)
+    else:
+        C = P.copy(linkback=(how == "copy_linkback"))
+        C.register(cf)
+    if spec["history"] == "rereg_unreg":
+        # the same signature registered once more under the parent's names, then taken out again
+        tmp = mk("a", "b", "T")
+        C.register(tmp)
+        C.unregister(tmp)
+    res.count("override_with_other_parameter_names")
+    for label, fn, tag, names in (("child", C, "C", (n0, n1)), ("parent", P, "P", ("a", "b"))):
+        for kwcall in (False, True):
+            res.ev()
+            res.count("probes")
+            try:
+                got = fn(**{names[0]: a0, names[1]: b1}) if kwcall else fn(a0, b1)
+            except Exception as e:  # noqa: BLE001
+                got = ("exc", type(e).__name__, str(e)[:60])
+            want = (tag, {names[0]: a0, names[1]: b1})
+            if got != want:
+                res.violation("override-binds-by-its-own-names", [label, "keyword" if kwcall else "positional", spec["how"]], spec,
+                              observed={"function": label, "by_keyword": kwcall, "got": repr(got)[:160]},
+                              acceptable=repr(want))
+    res.nontrivial(["names", spec["how"], spec["rename"], spec["history"]])
+    forget(files)
+
+
 def check_case(spec, res):
+    if spec.get("names_case"):
+        pin()
+        return _check_names(spec, res)
     pin()
     env = T.Env([])
     vf = VF()
